@@ -413,5 +413,9 @@ pub assume_specification[ String::into_bytes ](s: String) -> (r: Vec<u8>) ensure
 //@endfn
 //@endimpl
 
+// ---- code this unit's claims rely on that is outside the verifier: pinned to the reference tree (rule ix of ./check) ----
+//@watch src/response.rs "Response<R>" with_header
+//@watch src/response.rs "Response<File>" from_file
+//@watch src/response.rs "Response<R>" boxed
 } // verus!
 fn main() {}
